@@ -154,6 +154,19 @@ def run_history(impl, case, out):
             # (the driver fails before the Engine.IO handler runs): harmless, a later upgrade is still possible
             w.ws(peer.WSQ + '&sid=' + sid, fail_accept=True)
             w.run()
+        if case.get('pre') == 'failed':
+            # an earlier handshake on this session got as far as the probe and then failed; the client went back to
+            # polling and drained what that attempt left behind
+            s0 = peer.ws_upgrade(w, sid)
+            w.ws_send(s0, '2probe')
+            w.run()
+            w.ws_send(s0, '4x')
+            w.run()
+            for _ in range(2):
+                g0 = peer.poll(w, sid)
+                if not g0.done:
+                    w.call('send', sid, 'filler')
+                    w.run()
         pending = peer.poll(w, sid) if with_poll else None
         s = peer.ws_upgrade(w, sid)
         if not s.accepted:
@@ -170,6 +183,10 @@ def run_history(impl, case, out):
         for i, ev in enumerate(events):
             fire_event(w, s, ev)
             w.run()
+            if i == 0 and ref['pong'] and pending is not None and not pending.done:
+                # the poll that was parked when the handshake began is released by the answered probe (with what was
+                # queued, or a NOOP) - it is not left to compete with the socket
+                V(out, impl, 'parked_poll_not_released', 'probe', 'the poll parked before the handshake is still pending after the probe was answered', case)
             if i == 1:
                 tr_after_two = w.transport(sid)
             if i == 0 and ref['pong'] and len(events) > 1:
@@ -440,6 +457,51 @@ def run_config_cells(impl, out):
 
 # ---------------------------------------------------- schedule search (D<=1)
 
+class OpenRace(core.Scenario):
+    """A WebSocket opened without prior polling, observed by a client that acts the moment it has read the OPEN packet: it
+    polls with the sid it was just given. From its OPEN packet on the session is in WebSocket mode, so that poll is refused.
+    The threaded server is explored with a scheduling point before every line of the WebSocket handler."""
+    horizon = 1.0
+
+    def build(self):
+        p = self.params
+        extra = {'trace_funcs': ['_websocket_handler']} if p['impl'] == 'sync' else {}
+        w = self.world = peer.make_world(p['impl'], server_kwargs=dict(ping_interval=5, ping_timeout=5, async_handlers=False), **extra)
+        self.ws = None
+        self.poll = None
+        self.tr_at_open = None
+
+        def do_open(sc):
+            sc.ws = sc.world.ws(peer.WSQ)
+
+        def saw_open(sc):
+            return sc.ws is not None and any(isinstance(f[2], str) and f[2].startswith('0') for f in sc.ws.frames)
+
+        def do_poll(sc):
+            import json as _json
+            sid = _json.loads([f[2] for f in sc.ws.frames if isinstance(f[2], str) and f[2].startswith('0')][0][1:])['sid']
+            sc.sid = sid
+            sc.tr_at_open = sc.world.transport(sid) if sid in sc.world.live_sids() else None
+            sc.poll = sc.world.http('GET', peer.BASEQ + '&sid=' + sid)
+        self.scripts = [[core.Action('ws_open', do_open)], [core.Action('poll_on_open', do_poll, saw_open)]]
+
+    def finish(self):
+        w = self.world
+        w.run_until(self.horizon)
+        if self.poll is None:
+            self.flag('ws_open_not_websocket', 'no OPEN packet was ever written to the directly opened WebSocket', trigger='open_race')
+            return
+        if self.tr_at_open != 'websocket':
+            self.flag('ws_open_not_websocket', 'the client has read the OPEN packet of a directly opened WebSocket; transport(sid) = %r'
+                      % (self.tr_at_open,), trigger='open_race')
+        if not self.poll.done or self.poll.status != 400:
+            self.flag('ws_open_not_websocket', 'a polling GET sent on receipt of the OPEN packet of a directly opened WebSocket was not refused: '
+                      'done=%s status=%r' % (self.poll.done, self.poll.status), trigger='open_race')
+
+    def observation(self):
+        return {'tr': self.tr_at_open, 'poll': None if self.poll is None else (self.poll.done, self.poll.status)}
+
+
 class HandshakeRace(core.Scenario):
     """The handshake events, one poll and one send as three parallel scripts."""
     horizon = 2.0
@@ -547,6 +609,7 @@ def run(ctx):
                     jobs.append(('hist', impl, {'events': sq, 'queued': k, 'poll': poll}))
                     if len(sq) <= 2:
                         jobs.append(('hist', impl, {'events': sq, 'queued': k, 'poll': poll, 'pre': 'dropped'}))
+                        jobs.append(('hist', impl, {'events': sq, 'queued': k, 'poll': poll, 'pre': 'failed'}))
         for k in (0, 1, 2, 3):
             for poll in (False, True):
                 jobs.append(('hist', impl, {'events': [], 'queued': k, 'poll': poll, 'only_dropped': True}))
@@ -574,6 +637,14 @@ def run(ctx):
     params = [{'impl': impl, 'events': sq, '_free_switch': not ctx.quick} for impl in ('sync', 'async') for sq in race_seqs]
     bound = 1 if ctx.quick else 2
     st, viols, samples, gate = core.run_search(HandshakeRace, params, bound, ctx.workers, ctx.seed)
+    st_o, viols_o, _, _ = core.run_search(OpenRace, [{'impl': 'sync', '_free_switch': True}, {'impl': 'async', '_free_switch': True}],
+                                          2, ctx.workers, ctx.seed)
+    st.merge(st_o)
+    for v in viols_o:
+        rep.add(report.Violation(
+            dict({'impl': v['params']['impl'], 'kind': v['kind']}, **v['sig']),
+            '[%s open race choices=%s] %s' % (v['params']['impl'], _short(v['choices']), v['text']),
+            {'harness': 'open_race', 'params': v['params'], 'choices': v['choices']}, weight=(v['dev'], len(v['choices']))))
     for v in viols:
         rep.add(report.Violation(
             dict({'impl': v['params']['impl'], 'kind': v['kind']}, **v['sig']),
@@ -584,7 +655,7 @@ def run(ctx):
         'samples': [{'events': ['2probe', '', '5'], 'queued': 2, 'poll': True}] + samples[:2],
         'evaluations': n + st.executions, 'distinct_nontrivial': n + st.executions,
         'rule': 'history search: every event sequence of length <= 2 over %d handshake events%s x queued messages {0,1,2} x pending poll '
-                '{no,yes} (sequences of length <= 2 also after an earlier upgrade attempt whose socket was gone before the WebSocket accept), each with its recovery suffix, x {Server, AsyncServer}; transport configuration cells; schedule search: '
+                '{no,yes} (sequences of length <= 2 also after an earlier upgrade attempt whose socket was gone before the WebSocket accept, and after one that failed right after its probe), each with its recovery suffix, x {Server, AsyncServer}; transport configuration cells; schedule search: '
                 'every 1-event and probe+1-event handshake raced against one poll and one send, all interleavings of the three '
                 'scripts at quiescence and up to %d deviation(s) (early injection / preemption). states = histories + distinct '
                 'race outcomes; transitions = environment steps (8 per history, estimated) + decision points of the race executions.'
@@ -605,8 +676,8 @@ def run(ctx):
 
 def replay(ctx, payload):
     r = report.unbytes(payload['replay'])
-    if r.get('harness') == 'race':
-        ex = core.execute(HandshakeRace, r['params'], r['choices'], want_labels=True)
+    if r.get('harness') in ('race', 'open_race'):
+        ex = core.execute(HandshakeRace if r['harness'] == 'race' else OpenRace, r['params'], r['choices'], want_labels=True)
         for lab in ex.labels:
             print('  ', lab)
         print('observation:', ex.obs)
